@@ -228,7 +228,7 @@ def gen_object(crate, spec, obj):
         "name": name,
         "package": crate[2],
         "tier": "thorough",
-        "mem_gb": 4,
+        "mem_gb": 2 if n <= 17 else 6,
         "timeout_s": 400,
         "mount": "gamenet_%s.rs" % short,
         "functions": ["SnapObj::decode_obj", "%s::{decode,decode_inner,encode}" % title(obj["name"]), "SnapObj::encode", "snap_obj::obj_size", "IntUnpacker::{read_int,finish}"],
@@ -745,71 +745,82 @@ def build_all(repo):
     return out, skipped
 
 
+W_MAX = 38        # heaviest message harness admitted to the quick tier (estimated weight)
+W_FILL = 14       # random fill only with light messages
+W_OBJ = 17        # snapshot objects up to this weight are all in the quick tier
+
+
 def choose_quick(recs, seed):
+    """quick tier: deterministic coverage targets (every member kind x message family that has a
+    harness within the weight budget, every crate x family x shape) filled by a seeded choice among
+    the near-lightest candidates, a seeded light random fill, and all light snapshot objects. Kinds
+    whose lightest harness is over the budget (array, sha256, tune_param at the time of writing) are
+    decided in the thorough tier only; the generation record lists them."""
     rnd = random.Random(seed)
     chosen = []
     names = set()
+    uncovered = []
 
     def take(r):
         if r["entry"]["name"] not in names:
             names.add(r["entry"]["name"])
             chosen.append(r)
 
-    msgs = [r for r in recs if r["family"] != "obj"]
-    objs = [r for r in recs if r["family"] == "obj"]
-    rnd.shuffle(msgs)
-    rnd.shuffle(objs)
-    # 1. every member kind that occurs in messages is covered by a roundtrip harness; prefer cheap ones
     def weight(r):
         return r["weight"]
-    kinds = sorted(set(k for r in msgs for k in r["kinds"]))
-    for k in kinds:
-        if any(k in r["kinds"] and r["shape"] == "roundtrip" for r in chosen):
+
+    def pick(cands):
+        cands = [r for r in cands if r["weight"] <= W_MAX]
+        if not cands:
+            return False
+        cands.sort(key=lambda r: (r["weight"], r["entry"]["name"]))
+        near = [r for r in cands if r["weight"] <= cands[0]["weight"] + 4][:4]
+        take(rnd.choice(near))
+        return True
+
+    msgs = sorted([r for r in recs if r["family"] != "obj"], key=lambda r: r["entry"]["name"])
+    objs = sorted([r for r in recs if r["family"] == "obj"], key=lambda r: r["entry"]["name"])
+    # 1. every member kind that occurs in messages is covered by a roundtrip harness (plus UUID-identified
+    #    *system* messages explicitly: their id encoding differs from game messages). Kinds and messages
+    #    measured as too heavy for the every-change path are left to the thorough tier.
+    msgs_q = [r for r in msgs if not (r["kinds"] & HEAVY_KINDS) and not any(x in r["entry"]["name"] for x in HEAVY_NAMES)]
+    targets = [(k, None) for k in sorted(set(k for r in msgs for k in r["kinds"]))] + [("uuid_id", "sys")]
+    for k, fam in targets:
+        if k in HEAVY_KINDS:
+            uncovered.append(k)
             continue
-        cands = [r for r in msgs if k in r["kinds"] and r["shape"] == "roundtrip"]
-        if cands:
-            cands.sort(key=weight)
-            take(rnd.choice(cands[:3]))
-    # 2. every crate x family x shape present at least once for roundtrip; every crate has reject and total
+        if any(k in r["kinds"] and (fam is None or r["family"] == fam) and r["shape"] == "roundtrip" for r in chosen):
+            continue
+        if not pick([r for r in msgs_q if k in r["kinds"] and (fam is None or r["family"] == fam) and r["shape"] == "roundtrip"]):
+            uncovered.append("%s%s" % (k, "/" + fam if fam else ""))
+    msgs = msgs_q
+    # 2. every crate x family present at least once for roundtrip; every crate has reject, total, optabsent
     for crate in CRATES:
         for fam in ("sys", "game", "connless"):
             if not any(r["crate"] == crate[0] and r["family"] == fam for r in chosen):
-                cands = [r for r in msgs if r["crate"] == crate[0] and r["family"] == fam and r["shape"] == "roundtrip"]
-                if cands:
-                    cands.sort(key=weight)
-                    take(rnd.choice(cands[:3]))
+                pick([r for r in msgs if r["crate"] == crate[0] and r["family"] == fam and r["shape"] == "roundtrip"])
         for shape in ("reject", "total", "optabsent"):
             if not any(r["crate"] == crate[0] and r["shape"] == shape for r in chosen):
-                cands = [r for r in msgs if r["crate"] == crate[0] and r["shape"] == shape]
-                if cands:
-                    cands.sort(key=weight)
-                    take(rnd.choice(cands[:3]))
-    # 3. fill up to about 30 with a random mix
-    for r in msgs:
-        if len(chosen) >= 30:
-            break
-        if r["weight"] <= 30:  # measured: heavier messages exceed the quick-tier budget
-            take(r)
-    # 4. snapshot objects: every kind occurring in objects, every crate twice, 10 in total at least
-    nobj = 0
-    okinds = sorted(set(k for r in objs for k in r["kinds"]))
-    for k in okinds:
-        if any(r["family"] == "obj" and k in r["kinds"] for r in chosen):
-            continue
-        cands = [r for r in objs if k in r["kinds"]]
-        cands.sort(key=weight)
-        take(rnd.choice(cands[:3]))
-    for crate in CRATES:
-        while sum(1 for r in chosen if r["family"] == "obj" and r["crate"] == crate[0]) < 2:
-            cands = [r for r in objs if r["crate"] == crate[0] and r["entry"]["name"] not in names]
-            if not cands:
-                break
-            take(cands[0])
-    for r in objs:
-        if sum(1 for c in chosen if c["family"] == "obj") >= 10:
+                pick([r for r in msgs if r["crate"] == crate[0] and r["shape"] == shape])
+    # 3. seeded light random fill up to about 36 message harnesses
+    light = [r for r in msgs if r["weight"] <= W_FILL]
+    rnd.shuffle(light)
+    for r in light:
+        if len(chosen) >= 36:
             break
         take(r)
+    # 4. snapshot objects: all light ones (they are cheap: every word one symbolic i32)
+    for r in objs:
+        if r["weight"] <= W_OBJ or r["entry"].get("expect") == "fail":
+            take(r)
+    QUICK_UNCOVERED[:] = uncovered
     return chosen
+
+
+QUICK_UNCOVERED = []
+# measured (vp check 1 and local runs): > 250 s or > 6 GB
+HEAVY_KINDS = {"array", "sha256", "tune_param", "serverinfo_client", "snapshot_object"}
+HEAVY_NAMES = ("sys_input", "info_extended", "snap_single", "sv_game_info", "map_change", "sv_vote_option_list_add", "connless_info")
 
 
 def main():
@@ -826,13 +837,17 @@ def main():
                 sel = [r for r in recs if any(s in r["entry"]["name"] for s in only)]
             for r in sel:
                 r["entry"]["tier"] = "quick"
+                if r["family"] != "obj" and r["weight"] <= W_FILL:
+                    # measured peak RSS of such harnesses: 0.4-1.6 GB
+                    r["entry"]["mem_gb"] = 3
         else:
             sel = recs
         for r in sel:
             files[r["crate"]].append(r["code"])
             entries.append(r["entry"])
         with open(os.path.join(hdir, "C14_generation.json"), "w") as f:
-            json.dump({"generated_total": len(recs), "emitted": len(sel), "skipped": skipped}, f, indent=1)
+            json.dump({"generated_total": len(recs), "emitted": len(sel), "skipped": skipped,
+                       "quick_tier_kinds_left_to_thorough": QUICK_UNCOVERED if tier == "quick" else []}, f, indent=1)
     for c in CRATES:
         with open(os.path.join(hdir, "gen_gamenet_%s.rs" % c[0]), "w") as f:
             f.write("\n".join(files[c[0]]))
